@@ -145,6 +145,16 @@ def step (st : St) (line : String) : St × String :=
           else finish st (s.step st.cfg (if op == "deliver" then .deliver i else if op == "drop" then .drop i else .dup i))
         | _, _ => (st, "bad-op")
       else (st, "bad-op")
+    | ["forgegap", start, base, offs] =>
+      let offs? : Option (List Nat) :=
+        if offs == "-" then some [] else
+        (offs.splitOn ",").foldr (fun x acc => match x.toNat?, acc with
+          | some o, some l => if o ≤ 255 then some (o :: l) else none
+          | _, _ => none) (some [])
+      match st.sys, start.toNat?, base.toNat?, offs? with
+      | some s, some start, some base, some offs =>
+        finish st (.ok ({ s with r := s.r.onGap st.cfg start base (offs.map (base + ·)) }, []))
+      | _, _, _, _ => (st, "bad-op")
     | ["forgehb", f, l, c, fin, lv] =>
       let fin? := if fin == "F" then some true else if fin == "f" then some false else none
       let lv? := if lv == "L" then some true else if lv == "l" then some false else none
